@@ -48,6 +48,8 @@ func checkC04(c *Ctx) {
 	r.Rule("R04.1", "release on every exit: exactly one delete+close of the path's own key lock entry per owner path, none per waiter", 2)
 	r.Rule("R04.3", "no other blocking point: only lock.Lock and the receive on the found entry's channel; no call-out while lock is held", 2)
 	r.Rule("R04.4", "the spawned closure never touches the caller's key slice (keyed operations use a private copy made before the spawn)", 2)
+	r.Rule("R04.7", "the in-module backends release their shard locks on every exit (a leaked lock blocks Get's backend calls for ever; obligations of C08 R08.5)", 10)
+	r.Rule("R04.8", "waiters observe the owner's completed result: complete publication before release (obligations of C02 R02.2)", 2)
 	r.Rule("R04.5", "builder and write in the spawned closure run under detachedContext{caller ctx}", 2)
 	r.Rule("R04.6", "the failure cache is bounded by FailedUpdateTTL (a later Get can build again) and never dereferenced when disabled", 4)
 	r.NotDecided = []string{"termination of user code", "scheduler fairness", "panicking builders"}
@@ -91,6 +93,23 @@ func checkC04(c *Ctx) {
 	}, func(o *coreObl) (string, bool) {
 		return "R04.6", o.Rule == "R05.5" || o.Rule == "R05.6" || o.Rule == "R05.3" && (o.Status == "discharged" || o.What == "cached-error-not-from-builder")
 	})
+	// R04.7: Get returns once its builder returned only if the backend operations it calls return: the in-module backends release
+	// every shard lock on every exit of every operation (C08 R08.5), also of Walk/Dump run by somebody else on the same backend
+	c.borrow("C08", func() {
+		for _, b := range backends {
+			c.c08Backend(b)
+		}
+	}, func(o *coreObl) (string, bool) { return "R04.7", o.Rule == "R08.5" })
+	// "a later Get is able to build again": the stale value re-stored for UpdateTTL expires again, i.e. Trait.TTL honours the context TTL
+	// whatever the configured default is (C06 R06.6), and a waiter gets the owner's result (C02 R02.2)
+	c.borrow("C06", func() { c.c06TraitTTL() }, func(o *coreObl) (string, bool) { return "R04.6", o.Rule == "R06.6" })
+	c.borrow("C02", func() {
+		for _, sib := range siblings {
+			if fo := c.failover(sib); fo.Err == nil {
+				c.c02Sibling(fo)
+			}
+		}
+	}, func(o *coreObl) (string, bool) { return "R04.8", o.Rule == "R02.2" })
 	// R04.5: "when the caller's context is cancelled after Get returned" — the detached context's Done/Err/Deadline are its own
 	c.borrow("C06", func() { c.c06Detached() }, func(o *coreObl) (string, bool) { return "R04.5", o.Rule == "R06.4" })
 }
